@@ -75,6 +75,8 @@ func (e event) String() string {
 		return fmt.Sprintf("pushpull(n%d→n%d)", e.a, e.b)
 	case "housekeep":
 		return fmt.Sprintf("housekeep(n%d)", e.a)
+	case "restart":
+		return fmt.Sprintf("restart(n%d)", e.a)
 	}
 	return e.kind
 }
@@ -212,6 +214,7 @@ type cluster struct {
 	codec       codec.Codec
 	problem     string
 	keepForever bool
+	mkNode      func() *node
 }
 
 // keepForever (optional): the nodes are configured with LeftIngestersTimeout 0 — tombstones are never discarded
@@ -220,7 +223,7 @@ func newCluster(n int, script []step, maxCAS int, partition bool, keepForever ..
 	if partition {
 		c.codec, c.key = ring.GetPartitionRingCodec(), "pring"
 	}
-	for i := 0; i < n; i++ {
+	c.mkNode = func() *node {
 		cfg := memberlist.KVConfig{
 			RetransmitMult:             1,
 			LeftIngestersTimeout:       map[bool]time.Duration{false: retention, true: 0}[len(keepForever) > 0 && keepForever[0]],
@@ -244,7 +247,10 @@ func newCluster(n int, script []step, maxCAS int, partition bool, keepForever ..
 			nd.watchLast = descToRef(v).canon(c.base, false)
 			return true
 		})
-		c.nodes = append(c.nodes, nd)
+		return nd
+	}
+	for i := 0; i < n; i++ {
+		c.nodes = append(c.nodes, c.mkNode())
 	}
 	synctest.Wait()
 	return c
@@ -486,6 +492,14 @@ func (c *cluster) apply(e event) bool {
 		touched = e.b
 	case "housekeep":
 		c.nodes[e.a].kv.VerifCleanupObsoleteEntries()
+	case "restart":
+		// the node's process ends (queued broadcasts and the store are gone) and a fresh one takes its place; what it
+		// had already handed to the network stays deliverable
+		old := c.nodes[e.a]
+		old.stopWatch()
+		old.kv.VerifShutdown()
+		synctest.Wait()
+		c.nodes[e.a] = c.mkNode()
 	case "tick":
 		time.Sleep(time.Second)
 	case "jump":
@@ -633,6 +647,7 @@ type scenario struct {
 	depth       int
 	ticks       int
 	keepForever bool // retention 0: tombstones are kept (and hidden from readers) for ever
+	restarts    int  // node restarts per history (the restarted node comes back empty)
 	jumps       int  // clock jumps of (retention - 1 s): with the 1 s ticks, tombstones reach ages around the retention
 }
 
@@ -656,6 +671,11 @@ func (sc scenario) events(poolSize int) []event {
 	// periodic housekeeping of a node (removal of keys marked as deleted): touches nothing else
 	for i := 0; i < sc.nodes; i++ {
 		evs = append(evs, event{kind: "housekeep", a: i})
+	}
+	if sc.restarts > 0 {
+		for i := 0; i < sc.nodes; i++ {
+			evs = append(evs, event{kind: "restart", a: i})
+		}
 	}
 	evs = append(evs, event{kind: "tick"})
 	if sc.jumps > 0 {
@@ -711,14 +731,15 @@ func histString(h []event, sc scenario) string {
 
 func bfs(t *testing.T, rep *ev.Report, prop string, sc scenario, converge bool, deadline time.Time) bool {
 	type item struct {
-		hist  []event
-		pool  int
-		ticks int
-		jumps int
+		hist     []event
+		pool     int
+		ticks    int
+		jumps    int
+		restarts int
 	}
 	seen := map[string]bool{}
 	var mu sync.Mutex
-	frontier := []item{{nil, 0, 0, 0}}
+	frontier := []item{{nil, 0, 0, 0, 0}}
 	for lvl := 1; lvl <= sc.depth; lvl++ {
 		type job struct {
 			it item
@@ -727,7 +748,7 @@ func bfs(t *testing.T, rep *ev.Report, prop string, sc scenario, converge bool, 
 		var jobs []job
 		for _, it := range frontier {
 			for _, e := range sc.events(it.pool) {
-				if e.kind == "tick" && it.ticks >= sc.ticks || e.kind == "jump" && it.jumps >= sc.jumps {
+				if e.kind == "tick" && it.ticks >= sc.ticks || e.kind == "jump" && it.jumps >= sc.jumps || e.kind == "restart" && it.restarts >= sc.restarts {
 					continue
 				}
 				jobs = append(jobs, job{it, e})
@@ -784,7 +805,11 @@ func bfs(t *testing.T, rep *ev.Report, prop string, sc scenario, converge bool, 
 						if j.e.kind == "jump" {
 							jp++
 						}
-						next = append(next, item{h, r.pool, tk, jp})
+						rs := j.it.restarts
+						if j.e.kind == "restart" {
+							rs++
+						}
+						next = append(next, item{h, r.pool, tk, jp, rs})
 						rep.State(1)
 						if strings.Contains(r.canon, "LEFT") || strings.Contains(r.canon, "Deleted") {
 							rep.Distinct(sc.name + "|" + r.canon)
@@ -879,6 +904,8 @@ func scenariosC06() []scenario {
 		{name: "two-lifecyclers", nodes: 2, depth: d, ticks: 1, maxCAS: k, script: []step{{0, opReg, "x"}, {0, opHeartbeat, "x"}, {1, opReg, "y"}, {1, opLeave, "y"}, {1, opRemove, "x"}, {0, opRemove, "x"}}},
 		{name: "partition-editor", nodes: 2, depth: d, ticks: 1, maxCAS: k, partition: true, script: []step{{0, "add-partition", ""}, {0, "set-active", ""}, {0, "set-inactive", ""}, {1, "lock", ""}, {1, "add-owner", "o"}, {0, "remove-owner", "o"}, {1, "remove-partition", ""}}},
 	}
+	// a node's process may end once per history and come back empty (quantifier: "node restarts")
+	scs = append(scs, scenario{name: "two-lifecyclers-restart", nodes: 2, depth: d, ticks: 1, maxCAS: 3, restarts: 1, script: []step{{0, opReg, "x"}, {0, opHeartbeat, "x"}, {1, opReg, "y"}, {1, opRemove, "x"}}})
 	if ev.Thorough() {
 		scs = append(scs,
 			scenario{name: "three-nodes", nodes: 3, depth: d, ticks: 1, maxCAS: 3, script: []step{{0, opReg, "x"}, {1, opReg, "y"}, {2, opRemove, "x"}, {0, opLeave, "x"}}},
@@ -891,7 +918,7 @@ func scenariosC06() []scenario {
 func TestC06Convergence(t *testing.T) {
 	rep := ev.NewReport("C06", "convergence")
 	scs := scenariosC06()
-	rep.Bound = fmt.Sprintf("%d scenarios on 2 (thorough also 3) real detached memberlist.KV nodes (ring codec and partition-ring codec): every sequence of up to %d CAS operations over the scenario's alphabet issued on its nodes, interleaved in every way with delivery of any produced message to any node (loss, delay, duplication, reordering), push of a node's full state to another, and a clock tick; search runs to its fixpoint", len(scs), scs[0].maxCAS)
+	rep.Bound = fmt.Sprintf("%d scenarios on 2 (thorough also 3) real detached memberlist.KV nodes (ring codec and partition-ring codec): every sequence of up to %d CAS operations over the scenario's alphabet issued on its nodes, interleaved in every way with delivery of any produced message to any node (loss, delay, duplication, reordering), push of a node's full state to another, housekeeping, a clock tick and (one scenario) one restart of either node, which comes back empty; search runs to its fixpoint", len(scs), scs[0].maxCAS)
 	rep.Rule = "BFS with canonical-state deduplication; in EVERY reachable state (a) each node ≡ last-writer-wins join of what it was given, no tombstone visible, every change re-broadcast, and (b) the deterministic healing suffix (all messages to all nodes, full-state exchange between all ordered pairs, to fixpoint) is run and must end with all nodes exposing the same merged value, every acknowledged CAS reflected in it, and every watcher last called with it; distinct_nontrivial = distinct states containing a tombstone"
 	deadline := ev.Deadline(8 * time.Minute)
 	for _, sc := range scs {
